@@ -131,6 +131,9 @@ class PathFacts:
                 lf = H.linear(n["init"])
                 if lf is not None and not any(name == t or name in t.split(".")[0:1] for t in lf[0]):
                     self._add("Eq", ({name: 1}, 0), lf)
+        elif k == "havoc":
+            for nm in ev.a:
+                self._kill(nm)
         elif k == "call":
             n = ev.node
             if n is not None and n.get("k") == "MethodCall" and n.get("recv_ty", "").startswith("&mut"):
